@@ -277,6 +277,50 @@ def long_name_probe(rep):
         'how': 'vlib.logica_run.run_pred(program_text, predicate)'})
 
 
+def functor_renaming(rep, tier):
+  """Programs with functor applications (the families of props/c04.py): renaming the made predicates so that their
+  alphabetical order changes must not change the rows of any of them."""
+  import re
+  from props import c04
+  r = common.rng('c07-functor-renaming')
+  cases = c04.family_cases(r)
+  if tier == 'quick':
+    cases = [c for c in cases if any(k in str(c.get('features')) for k in ('two_applications', 'different_bindings',
+                                                                            'functor_of_functor', 'intermediate'))][:8]
+  runs = bad = 0
+  for case in cases:
+    text = case['impl']
+    made = sorted(set(re.findall(r'^(\w+) := ', text, re.M)))
+    if len(made) < 2:
+      continue
+    # new names in the reverse alphabetical order of the old ones
+    news = ['R%s%s' % (chr(ord('a') + len(made) - 1 - i), m) for i, m in enumerate(made)]
+    renamed = text
+    for old, new in zip(made, news):
+      renamed = re.sub(r'\b%s\b' % old, new, renamed)
+    st1, p1 = c04.program_of(text)
+    st2, p2 = c04.program_of(renamed)
+    if st1 != 'ok' or st2 != 'ok':
+      if st1 != st2 and bad < 2:
+        bad += 1
+        rep.violation('functor-renaming:%s-vs-%s' % (st1, st2), {
+            'program_text': text, 'renamed_program_text': renamed, 'observed': [st1, st2],
+            'law': 'consistently renaming predicates does not change the outcome'})
+      continue
+    for old, new in zip(made, news):
+      a, b = c04.rows_of(p1, old), c04.rows_of(p2, new)
+      runs += 2
+      if a != b and bad < 2:
+        bad += 1
+        rep.violation('functor-renaming:rows', {
+            'program_text': text, 'predicate': old, 'rows': a, 'renamed_program_text': renamed, 'renamed_predicate': new,
+            'rows_after_renaming': b, 'law': 'consistently renaming predicates (here: the names of functor applications, '
+                                             'so that their alphabetical order changes) does not change the rows',
+            'how': 'props.c04.program_of(text) / rows_of(program, predicate)'})
+  rep.coverage['functor_renaming_runs'] = runs
+  rep.coverage['evaluations'] = rep.coverage.get('evaluations', 0) + runs
+
+
 def run(tier, replay=None):
   rep = common.Report(PID, tier, 'other')
   if replay and K.replay_program_rows(rep, replay):
@@ -306,4 +350,5 @@ def run(tier, replay=None):
     record_patterns(rep, tier)
     unnest_order(rep, tier)
     long_name_probe(rep)
+    functor_renaming(rep, tier)
   return rep.finish()
